@@ -20,6 +20,7 @@ import random
 import common
 from common import WorkerStats, canon
 import actlib
+import actrun
 
 META = {
     'property': 'C17',
@@ -31,7 +32,8 @@ META = {
                 'doit/action.py::CmdAction.action', 'doit/action.py::Writer', 'doit/action.py::PythonAction.execute',
                 'doit/action.py::PythonAction._prepare_kwargs', 'doit/action.py::create_action',
                 'doit/task.py::Task.execute', 'doit/task.py::Stream', 'doit/task.py::IOConfig',
-                'doit/exceptions.py::BaseFail', 'doit/exceptions.py::TaskFailed', 'doit/exceptions.py::TaskError'],
+                'doit/exceptions.py::BaseFail', 'doit/exceptions.py::TaskFailed', 'doit/exceptions.py::TaskError',
+                'doit/runner.py::Runner.execute_task', 'doit/runner.py::MRunner.execute_task_subprocess'],
     'technique': 'Lean 4 proofs over an executable model of PythonAction/CmdAction/Task.execute and of the '
                  'process-wide stdout cell (induction over well-nested step lists) + differential correspondence '
                  'against the real classes, incl. forced thread interleavings',
@@ -56,7 +58,9 @@ META = {
             'cmd: exit 0..255 / signal / child signal x byte chunks (non-UTF-8, no trailing newline, up to 256 KiB, '
             'interleaved) x capture True/False/None x verbosity x save_out x expansion errors; task: 1..5 mixed '
             'actions, unsuccessful action in every position; nested: random forests of executions (depth<=4) with '
-            'per-action verbosity and ending; overlap: 2-3 threads, forced interleavings of start/write/end. '
+            'per-action verbosity and ending; overlap: 2-3 threads, forced interleavings of start/write/end; runner: whole '
+            '`doit run`s (serial / process / thread runner; independent, chained or forced-to-overlap tasks) observed '
+            'through a reporter class. '
             'non-trivial = produces output or a non-ok outcome or >1 action; distinct = canonical JSON of the case',
     'assumptions': ['CmdAction buffering=0 (line mode) and decode_error=replace (the defaults)',
                     'io.capture False/None is documented as "not captured": the capture clause is read for capture on',
@@ -73,9 +77,13 @@ def sig_overlap(w):
     the only failures are the ones the stream machine predicts for that interleaving (stale writer left in
     sys.stdout/sys.stderr, writes attributed to the other action or leaked to the original stream)"""
     c = w.get('case') or {}
-    if c.get('kind') != 'overlap' or len(c.get('threads', [])) < 2:
+    if c.get('kind') == 'runner':
+        # the same finding on the real MThreadRunner: two tasks made to overlap in two worker threads
+        if not (c.get('par') == 'thread' and c.get('mode') == 'forced' and c.get('n', 0) >= 2):
+            return False
+    elif c.get('kind') != 'overlap' or len(c.get('threads', [])) < 2:
         return False
-    if not actlib.overlapping_pairs(c):
+    elif not actlib.overlapping_pairs(c):
         return False
     if w.get('impl_equals_model') is not True:
         return False
@@ -83,7 +91,28 @@ def sig_overlap(w):
     return bool(keys) and keys <= {'cell-not-restored', 'misattributed', 'leak-to-original'}
 
 
-SIGNATURES = {'stdout-overlap-threads': sig_overlap}
+def sig_buffering(w):
+    """F-C17c: cmd-action with buffering=N>0 and capture on whose output has a UTF-8 sequence across a multiple of
+    N bytes; what was captured is exactly the chunk-wise decoding of the bytes written"""
+    c = w.get('case') or {}
+    n = c.get('buffering') or 0
+    if c.get('kind') != 'cmd' or n <= 0 or not c.get('capture', True) or c.get('expand', 'ok') != 'ok':
+        return False
+    keys = set(w.get('failed_keys') or [])
+    if not keys or not keys <= {'captured-out', 'captured-err', 'live-out', 'live-err', 'result', 'values'}:
+        return False
+    out, err = actlib.stream_bytes(c)
+    split = [actlib.chunkwise_decode(b, n) != b.decode('utf-8', 'replace') for b in (out, err)]
+    if not any(split):
+        return False
+    if ('captured-out' in keys or 'live-out' in keys) and not split[0]:
+        return False
+    if ('captured-err' in keys or 'live-err' in keys) and not split[1]:
+        return False
+    return w.get('observed_is_chunkwise_decode') is True
+
+
+SIGNATURES = {'stdout-overlap-threads': sig_overlap, 'cmd-buffering-splits-multibyte': sig_buffering}
 
 
 
@@ -138,6 +167,49 @@ def requests_for(case):
     if k == 'overlap':
         return [{'model': 'act', 'op': 'stream', 'evs': actlib.overlap_evs(case)}]
     raise ValueError(k)
+
+
+def judge_runner(case, obs, m):
+    bad = []
+
+    def cmp(key, level, got, want):
+        if got != want:
+            bad.append((key, level, 'observed %s, expected %s' % (clip(got), clip(want))))
+    if 'error' in m:
+        return [('driver-error', 'K', clip(m))]
+    for pr in obs['problems']:
+        bad.append(('schedule-not-followed', 'K', pr))
+    if obs['raised']:
+        bad.append(('impl-exception', 'K', obs['raised']))
+    if obs['runtime_errors']:
+        bad.append(('runtime-error', 'K', clip(obs['runtime_errors'])))
+    cmp('tasks-reported', 'K', sorted(obs['reported']), sorted(str(i) for i in range(len(case['tasks']))))
+    model_restored = (m['cell'] == 'orig')
+    cmp('cell-model', 'K', obs['restored'], [model_restored, model_restored])
+    cmp('cell-not-restored', 'P', obs['restored'], [True, True])
+    for name in ('out', 'err'):
+        for a, spec in m['spec'].items():
+            cmp('model-out', 'K', obs[name].get(a), m['out'].get(a))
+            cmp('misattributed', 'P', obs[name].get(a), spec)
+    v = case.get('v', 0)
+    if v == 0:
+        for live in ('O', 'E'):
+            cmp('model-orig', 'K', obs[live], m['origLog'])
+            cmp('leak-to-original', 'P', obs[live], [])
+    elif case['par'] != 'process' and case['mode'] != 'forced':
+        shown = [[e[1], e[2]] for e in m['evs'] if e[0] == 'write']
+        cmp('live-run', 'P', obs['E'], shown)
+        cmp('live-run', 'P', obs['O'], shown if v == 2 else [])
+    return bad
+
+
+def evaluate_runner(case, drv):
+    try:
+        obs = actrun.run_runner(case)
+    except actlib.Hang as ex:
+        return {'hang': str(ex)}, [], [('hang', 'P', str(ex))]
+    m = drv.ask({'model': 'act', 'op': 'stream', 'evs': actrun.runner_evs(case, obs['order'])})
+    return obs, [m], judge_runner(case, obs, m)
 
 
 RUNNERS = {'py': actlib.run_py, 'cmd': actlib.run_cmd, 'task': actlib.run_task, 'nested': actlib.run_nested,
@@ -242,6 +314,11 @@ def judge(case, obs, model):
 
 def evaluate(case, drv=None):
     """(obs, model answers, problems)"""
+    if case['kind'] == 'runner':
+        if drv is not None:
+            return evaluate_runner(case, drv)
+        with common.LeanDriver() as d:
+            return evaluate_runner(case, d)
     reqs = requests_for(case)
     if drv is not None:
         model = [drv.ask(r) for r in reqs]
@@ -366,9 +443,13 @@ def describe(case):
             case['ret']['cat'], case['ret'].get('rep', ''), case.get('capture', True), case.get('v'),
             case.get('kwargs_raise'), case.get('swap', 'none'), len(case.get('writes', [])))
     if k == 'cmd':
-        return 'cmd exit=%s cap=%s v=%s save_out=%s chunks=%d expand=%s' % (
+        return 'cmd exit=%s cap=%s v=%s save_out=%s chunks=%d expand=%s buffering=%s' % (
             case.get('exit'), case.get('capture', True), case.get('v'), case.get('save_out'),
-            len(case.get('chunks', [])), case.get('expand', 'ok'))
+            len(case.get('chunks', [])), case.get('expand', 'ok'), case.get('buffering', 0))
+    if k == 'runner':
+        return 'runner %s n=%s %s v=%s tasks=%s' % (
+            case['par'], case.get('n'), case['mode'], case.get('v'),
+            [[a.get('end', 'true') for a in t['actions']] for t in case['tasks']])
     if k == 'task':
         return 'task ' + ','.join(a['ret']['cat'] if a['t'] == 'py' else 'cmd%s' % a.get('exit', ['', 0])[1]
                                   for a in case['actions'])
@@ -398,6 +479,11 @@ def report(st, case, obs, model, probs, drv):
              'observed': json.loads(clip_json(obs2)), 'model': json.loads(clip_json(model2))}
         if small['kind'] == 'overlap':
             w['overlapping_pairs'] = actlib.overlapping_pairs(small)
+        if small['kind'] == 'cmd' and small.get('buffering') and obs2 and 'out' in obs2:
+            ob, eb = actlib.stream_bytes(small)
+            nb = small['buffering']
+            w['observed_is_chunkwise_decode'] = (
+                obs2['out'] == actlib.chunkwise_decode(ob, nb) and obs2['err'] == actlib.chunkwise_decode(eb, nb))
         st.violation(w, fk[0] if fk else key, '; '.join('%s: %s' % (p[0], p[2]) for p in probs2[:4]))
     else:
         w = {'case': case, 'what': describe(case), 'problems': [list(p) for p in probs][:12],
@@ -458,6 +544,8 @@ def count_case(st, case):
             st.count('cmd.expand_error')
         if case.get('save_out') is not None:
             st.count('cmd.save_out')
+        if case.get('buffering'):
+            st.count('cmd.buffering>0')
     elif k == 'task':
         st.count('task.len:%d' % len(case['actions']))
         pos = next((i for i, a in enumerate(case['actions']) if action_unsuccessful(a)), None)
@@ -465,6 +553,8 @@ def count_case(st, case):
     elif k == 'nested':
         st.count('nested.actions:%d' % min(8, len(actlib.forest_actions(case['forest']))))
         st.count('nested.depth:%d' % forest_depth(case['forest']))
+    elif k == 'runner':
+        st.count('runner.%s.%s' % (case['par'], case['mode']))
     elif k == 'overlap':
         st.count('overlap.threads:%d' % len(case['threads']))
         st.count('overlap.overlapping' if actlib.overlapping_pairs(case) else 'overlap.disjoint')
@@ -625,7 +715,30 @@ def gen_cmd(rng, big=False):
         c['expand'] = rng.choice(['badkey', 'badelem', 'callable_raises'])
     if rng.random() < 0.1:
         c['repeat'] = 2
+    if rng.random() < 0.1 and c['capture'] is True:
+        c['buffering'] = rng.choice([1, 2, 3, 5, 7, 64, 1024])
     return c
+
+
+def gen_runner(rng):
+    par = rng.choice(['serial', 'process', 'thread'])
+    mode = rng.choice(['chain', 'forced'] if par == 'thread' else ['independent', 'chain'])
+    if mode == 'forced':
+        tasks = [{'actions': [{'writes': rng.randint(0, 3), 'end': 'true'}]},
+                 {'actions': [{'writes': rng.randint(0, 2), 'end': 'true'}, {'writes': rng.randint(0, 3), 'end': 'true'}]}]
+        return {'kind': 'runner', 'par': 'thread', 'n': 2, 'mode': 'forced', 'v': 0, 'tasks': tasks}
+    tasks = []
+    for _ in range(rng.randint(1, 4)):
+        tasks.append({'actions': [{'writes': rng.randint(0, 3), 'end': rng.choice(['true', 'true', 'str', 'false', 'raise'])}
+                                  for _ in range(rng.randint(1, 3))]})
+    if mode == 'chain':
+        # a failed task stops its dependents: keep every task of a chain successful except possibly the last
+        for t in tasks[:-1]:
+            for a in t['actions']:
+                if a['end'] in ('false', 'raise'):
+                    a['end'] = 'true'
+    return {'kind': 'runner', 'par': par, 'n': rng.choice([2, 3]) if par != 'serial' else 1, 'mode': mode,
+            'v': rng.choice([0, 0, 1, 2]), 'tasks': tasks}
 
 
 def gen_task_action(rng, bad=None):
@@ -791,6 +904,14 @@ def exhaustive_cmd(full):
     for cap in ODD_CAPTURES:
         for v in (0, 2):
             out.append({'kind': 'cmd', 'chunks': chunks, 'exit': ['status', 0], 'v': v, 'capture': cap, 'save_out': 2})
+    for nbuf in (1, 2, 3, 4096):
+        # buffering > 0: ASCII and aligned multi-byte output is intact; a misaligned sequence is F-C17c (open)
+        out.append({'kind': 'cmd', 'chunks': [['o', {'text': 'plain ascii\nno newline'}], ['e', {'text': 'e'}]],
+                    'exit': ['status', 0], 'v': 2, 'capture': True, 'save_out': 1, 'buffering': nbuf})
+        out.append({'kind': 'cmd', 'chunks': [['o', {'rep': 'c3a9', 'n': 6}]], 'exit': ['status', 0], 'v': 0,
+                    'capture': True, 'save_out': None, 'buffering': nbuf})
+        out.append({'kind': 'cmd', 'chunks': [['o', {'text': 'x'}], ['o', {'rep': 'c3a9', 'n': 6}]],
+                    'exit': ['status', 0], 'v': 0, 'capture': True, 'save_out': None, 'buffering': nbuf})
     for expand in ('badkey', 'badelem', 'callable_raises'):
         for cap in CAPTURES:
             out.append({'kind': 'cmd', 'chunks': chunks, 'exit': ['status', 0], 'v': 2, 'capture': cap,
@@ -958,6 +1079,7 @@ def run(ctx):
         st.merge_into(ctx)
     cases = build_cases(ctx, ctx.boost)
     run_cases(ctx, cases)
+    run_runner_cases(ctx, ctx.boost)
     ctx.extra['exhaustive_small_scope'] = {
         'py': 'every representative x io.capture x verbosity (+direct, kwargs-raise, stream-swapping callables)',
         'cmd': 'exit statuses 0..255, 9 signals x capture, capture x verbosity x save_out grid, 256 KiB outputs',
@@ -973,10 +1095,44 @@ def run(ctx):
     clear_hang_flag()
 
 
+FIXED_RUNNER = [
+    {'kind': 'runner', 'par': 'thread', 'n': 2, 'mode': 'forced', 'v': 0,
+     'tasks': [{'actions': [{'writes': 1, 'end': 'true'}]},
+               {'actions': [{'writes': 1, 'end': 'true'}, {'writes': 1, 'end': 'true'}]}]},
+    {'kind': 'runner', 'par': 'serial', 'n': 1, 'mode': 'independent', 'v': 0,
+     'tasks': [{'actions': [{'writes': 2, 'end': 'true'}, {'writes': 1, 'end': 'false'}, {'writes': 1}]},
+               {'actions': [{'writes': 1, 'end': 'raise'}]}, {'actions': [{'writes': 2, 'end': 'str'}]}]},
+    {'kind': 'runner', 'par': 'process', 'n': 2, 'mode': 'independent', 'v': 1,
+     'tasks': [{'actions': [{'writes': 2, 'end': 'true'}]}, {'actions': [{'writes': 1, 'end': 'str'}]},
+               {'actions': [{'writes': 3, 'end': 'false'}]}]},
+    {'kind': 'runner', 'par': 'thread', 'n': 2, 'mode': 'chain', 'v': 2,
+     'tasks': [{'actions': [{'writes': 2, 'end': 'true'}]}, {'actions': [{'writes': 1, 'end': 'str'}]},
+               {'actions': [{'writes': 3, 'end': 'raise'}]}]},
+]
+
+
+def run_runner_cases(ctx, scale):
+    """whole `doit run`s in this process (the process runner cannot be started from a pool worker)"""
+    st = WorkerStats()
+    cases = [copy.deepcopy(c) for c in FIXED_RUNNER]
+    for _ in range((10 if ctx.tier == 'quick' else 150) * scale):
+        cases.append(gen_runner(random.Random(ctx.rng.getrandbits(64))))
+    with common.LeanDriver() as drv:
+        for case in cases:
+            obs, model, probs = evaluate_runner(case, drv)
+            st.case({'case': describe(case)}, True)
+            st.traces += 1
+            count_case(st, case)
+            if probs:
+                report(st, case, obs, model, probs, drv)
+    st.merge_into(ctx)
+
+
 def search(ctx):
     """(T) or (K) broke and the first pass found no property failure: more of everything, different seeds"""
     ctx.rng.seed(ctx.seed * 1000003 + 7919)
     run_cases(ctx, build_cases(ctx, ctx.boost))
+    run_runner_cases(ctx, ctx.boost)
 
 
 def replay(ctx, data):
@@ -995,7 +1151,7 @@ def replay(ctx, data):
     if not probs:
         print('  no problem: implementation == model == statement on this case')
     pv = [p for p in probs if p[1] == 'P']
-    if pv and sig_overlap({'case': case, 'impl_equals_model': not [p for p in probs if p[1] == 'K'],
+    if pv and case['kind'] in ('overlap', 'runner') and sig_overlap({'case': case, 'impl_equals_model': not [p for p in probs if p[1] == 'K'],
                            'failed_keys': sorted(set(p[0] for p in pv))}):
         print('  (matches the open known finding stdout-overlap-threads, F-C17a)')
     return not pv
